@@ -1091,6 +1091,12 @@ func TestC12(t *testing.T) {
 				os.WriteFile(p, b, 0o644)
 				fmt.Printf("INCONCLUSIVE property=C12 parser did not return within the watchdog on case %d (input saved to %s)\n", no, p)
 				t.Errorf("INCONCLUSIVE: hang suspect, see %s", p)
+				if no > res.job.from { // keep the verdicts of the cases before the hanging one
+					if pre := run(job{res.job.from, no}, idx*1000+999); pre.resp != nil {
+						absorb(pre.resp)
+					}
+				}
+				r.Event("cases_not_run_after_hang", int64(res.job.to-no-1))
 				no = res.job.to // the rest of this batch is not run: a systematic hang would cost a watchdog period per case
 			default:
 				site := "unknown"
@@ -1105,11 +1111,27 @@ func TestC12(t *testing.T) {
 					map[string]any{"case": no, "precision": prec, "input": c12Clip(data), "input_hex": hex.EncodeToString(data), "exit_code": res.res.ExitCode, "log_tail": logTail})
 				r.Event("child_crashes", 1)
 			}
-			if no < 0 || no+1 >= res.job.to || attempts > 50 {
+			if no < 0 || no >= res.job.to {
 				break
 			}
 			r.Case(fmt.Sprintf("crashed-%d", no), true)
-			res = run(job{no + 1, res.job.to}, idx*1000+attempts+1)
+			// the verdicts of the cases before the fatal one died with the child: run that
+			// (crash-free) prefix again, then resume after the fatal case
+			if no > res.job.from {
+				if pre := run(job{res.job.from, no}, idx*1000+2*attempts+1); pre.resp != nil {
+					absorb(pre.resp)
+				} else {
+					r.Inconclusive("prefix of a crashed batch could not be re-run")
+				}
+			}
+			if no+1 >= res.job.to {
+				break
+			}
+			if attempts >= 5 {
+				r.Event("cases_not_run_after_repeated_crashes", int64(res.job.to-no-1))
+				break
+			}
+			res = run(job{no + 1, res.job.to}, idx*1000+2*attempts+2)
 		}
 	}
 	// emit rare classes first: only the first 20 violations get a replay file
